@@ -272,7 +272,7 @@ def divsweep(ctx, stats, tally):
                    c.get("d_config_skipped_too_big"), c.get("d_div_programs_structured")))
     ctx.oblige("division sweep: generated programs with division at widths that are not enumerated (statements, if / else, "
                "loops, division results feeding other operators; %d compiled)" % c.get("d_programs_divgen", 0),
-               c.get("d_programs_divgen", 0) >= (1 if ctx.tier == "quick" else 6) and not c.get("d_skipped_too_big_divgen"),
+               c.get("d_programs_divgen", 0) >= (1 if ctx.tier == "quick" else 4) and not c.get("d_skipped_too_big_divgen"),
                "compiled=%s compile_fail=%s skipped=%s" % (c.get("d_programs_divgen"), c.get("d_compile_fail_divgen"),
                                                          c.get("d_skipped_too_big_divgen")))
     missing = [k for k in DIV_CLASSES if not c.get("d_div_class_" + k)]
@@ -313,7 +313,9 @@ def run(ctx):
     ctx.prove("MpcVerif.Props.C09Programs", ["Mpc.C09_program_target_equiv", "Mpc.C09_program_both_targets_compute_meaning",
                                              "Mpc.C09_program_target_equiv_div_est", "Mpc.C09_program_target_equiv_div",
                                              "Mpc.C09_program_div_both_targets_compute_meaning",
+                                             "Mpc.C09_div_wrong_output_refutes_estimate_est",
                                              "Mpc.C09_div_wrong_output_refutes_estimate",
+                                             "Mpc.exDiv2_zeroEstimator_wrong",
                                              "Mpc.SsaC.goldschmidt_eq_dividerPad", "Mpc.SsaC.ssaCircuitEvalE_gold",
                                              "Mpc.SsaC.EstOn_exact", "Mpc.SsaC.dividerPad_spec", "Mpc.SsaC.compileOpE_sound",
                                              "Mpc.SsaC.compileStepsE_sound", "Mpc.SsaC.ssaCompileE_sound",
